@@ -15,6 +15,7 @@ import (
 	"sort"
 	"strings"
 	"sync"
+	"time"
 
 	"github.com/atomix/go-sdk/pkg/test"
 	adminapi "github.com/onosproject/onos-api/go/onos/config/admin"
@@ -405,6 +406,18 @@ func (d *TxDecor) Watch(ctx context.Context, ch chan<- configapi.TransactionEven
 	return nil
 }
 
+// CfgDecor wraps the real configuration store for the gNMI server: Watch is refused at once.  The
+// only watcher is a SYNCHRONOUS Get waiting for a configuration to be applied — which never
+// happens in the harness (no master) — so the wait ends deterministically instead of by a deadline.
+type CfgDecor struct {
+	configuration.Store
+}
+
+// Watch is refused.
+func (d *CfgDecor) Watch(ctx context.Context, ch chan<- configapi.ConfigurationEvent, opts ...configuration.WatchOption) error {
+	return errors.NewUnavailable("harness: configuration watch refused")
+}
+
 // ---------------------------------------------------------------------------------------------
 
 // Env is one wired environment.
@@ -444,20 +457,24 @@ func New(spec Spec) (*Env, error) {
 	e.Topo = newFakeTopo(spec.Targets)
 	e.Reg = newFakeRegistry(spec.Plugins)
 	e.Conns = newFakeConns(spec.Targets)
-	e.Gnmi = nbgnmi.NewServerForVerif(e.Topo, e.Tx, props, cfgs, e.Reg, e.Conns, spec.Limit)
+	e.Gnmi = nbgnmi.NewServerForVerif(e.Topo, e.Tx, props, &CfgDecor{Store: cfgs}, e.Reg, e.Conns, spec.Limit)
 	e.Admin = nbadmin.NewServerForVerif(e.Tx, cfgs, e.Reg)
 	e.TxRec = transactionctl.NewReconcilerForVerif(txs, props)
 	e.PropRec = proposalctl.NewReconcilerForVerif(e.Topo, e.Conns, props, cfgs, e.Reg)
 	return e, nil
 }
 
-// Close releases the stores.
+// Close releases the stores.  The atomix test client starts its in-process gRPC services in
+// goroutines that call os.Exit(1) when Serve finds the server already stopped, so a client must
+// not be closed right after it was created: closing is deferred a little.
 func (e *Env) Close() {
-	ctx := context.Background()
-	_ = e.RawTx.Close(ctx)
-	_ = e.Props.Close(ctx)
-	_ = e.Cfgs.Close(ctx)
-	e.Atomix.Close()
+	time.AfterFunc(300*time.Millisecond, func() {
+		ctx := context.Background()
+		_ = e.RawTx.Close(ctx)
+		_ = e.Props.Close(ctx)
+		_ = e.Cfgs.Close(ctx)
+		e.Atomix.Close()
+	})
 }
 
 // Drive pushes the transaction with the given index through the real transaction and proposal
